@@ -134,9 +134,9 @@ def make_case(rng, idx: int, forced: typing.Optional[dict] = None) -> dict:
     mode = f.get('mode', MODES[(idx // 4) % 4])
     omit = f.get('omit', rng.random() < (0.25 if mode == 'always' else 0.4))
     ns_types = f.get('ns_types', rng.random() < 0.4)
-    tpl = f.get('tpl', rng.choice([None, None, 'copy', 'copy+any', 'copy+extra', 'copy+nested', 'copy+nested']))
+    tpl = f.get('tpl', rng.choice([None, None, 'copy', 'copy+any', 'copy+extra', 'copy+nested', 'copy+nested', 'copy+empty']))
     if ns_types and lang in ('c', 'cpp') and 'tpl' not in f and rng.random() < 0.7:
-        tpl = 'copy+any'
+        tpl = rng.choice(['copy+any', 'copy+any', 'copy+empty'])
     sup = f.get('sup', rng.choice([None, None, None, 'other', 'shadow']))
     with_lookup = f.get('lookup', rng.random() < 0.5)
     roots, lookups = f.get('types') or gen_namespace(rng, with_lookup, 'abcdefgh'[idx % 8])
@@ -170,6 +170,10 @@ def job_of(case: dict, work: str, rng) -> dict:
         if case['tpl'] == 'copy+extra':
             files['tpl/extra/Unused.j2'] = 'never used\n'
             files['tpl/notes.txt'] = 'not a template\n'
+            files['tpl/helper.py'] = '# a Python file next to the templates\n'
+        if case['tpl'] == 'copy+empty':      # user templates that render nothing: the file is still created (empty)
+            files['tpl/UnionType.j2'] = ''
+            files['tpl/Any.j2'] = ''
         if case['tpl'] == 'copy+nested':
             files.update(NESTED_FILES)
             appends['tpl/' + BASE_TPL[lang]] = NESTED_APPEND
@@ -246,8 +250,9 @@ def coq_tdir(work: str, d: str, inv: typing.List[str]) -> str:
         j2 = os.path.splitext(name)[1] == '.j2'
         stem = os.path.splitext(os.path.basename(name))[0]
         cls = CLS_OF_STEM.get(stem) if (j2 and '/' not in name) else None
-        items.append('{| tf_name := %s; tf_path := %s; tf_j2 := %s; tf_cls := %s |}' % (
-            s2c(name), coq_path('%s/%s/%s' % (work, d, name)), coq_bool(j2), ('Some %s' % cls) if cls else 'None'))
+        py = os.path.splitext(name)[1] in ('.py', '.pyc', '.pyo') or '__pycache__' in name.split('/')
+        items.append('{| tf_name := %s; tf_path := %s; tf_j2 := %s; tf_py := %s; tf_cls := %s |}' % (
+            s2c(name), coq_path('%s/%s/%s' % (work, d, name)), coq_bool(j2), coq_bool(py), ('Some %s' % cls) if cls else 'None'))
     return 'Some [%s]' % '; '.join(items)
 
 
@@ -307,7 +312,8 @@ def run_model(cases: typing.List[dict], results: typing.List[dict], scratch: str
             sp = lambda s: [x for x in s.split(';') if x != '']
             outs[i] = {'r_real': int(ln[0]), 'r_lo': int(ln[1]), 'lo': sp(ln[2]), 'r_li': int(ln[3]), 'li': sp(ln[4]), 'r_dry': int(ln[5]),
                        'created': sp(ln[6]), 'influence': sp(ln[7]), 'trig_lookup': ln[8][0] == '1', 'trig_nonj2': ln[8][1] == '1',
-                       'trig_sup': ln[8][2] == '1', 'consistent': ln[8][3] == '1'}
+                       'trig_sup': ln[8][2] == '1', 'consistent': ln[8][3] == '1', 'fix_lookup': ln[8][4] == '1',
+                       'fix_nonj2': ln[8][5] == '1', 'fix_suptpl': ln[8][6] == '1', 'trig_py': ln[8][7] == '1'}
         return ''
     with concurrent.futures.ThreadPoolExecutor(max_workers=6) as ex:
         errs = [e for e in ex.map(one, range(6)) if e]
@@ -331,6 +337,14 @@ def plain_types() -> typing.Tuple[typing.List[dict], typing.List[dict]]:
     return [a, b], []
 
 
+def union_types() -> typing.Tuple[typing.List[dict], typing.List[dict]]:
+    roots, _ = plain_types()
+    roots = [dict(t, ns=['rtu'] + t['ns'][1:]) for t in roots]
+    roots[1]['dep_types'] = [roots[0]]
+    roots.append({'key': 3, 'ns': ['rtu', 'sub'], 'name': 'Choice', 'major': 1, 'minor': 0, 'kind': 'union', 'nfields': 2, 'dep_types': []})
+    return roots, []
+
+
 def witness_cases() -> typing.List[dict]:
     wr, wl = witness_types()
     base = dict(omit=False, ns_types=False, ext=None, stem=None, mode='as-needed')
@@ -347,6 +361,10 @@ def witness_cases() -> typing.List[dict]:
         # nested custom template directories with duplicate basenames, every file edited once
         dict(base, lang='c', mode='never', tpl='copy+nested', sup=None, types=plain_types(), tag='nested-templates', probes='auto'),
         dict(base, lang='py', mode='as-needed', tpl='copy+nested', sup='other', types=plain_types(), tag='nested-templates', probes='auto'),
+        # user templates that render nothing (namespace file through an empty Any.j2, a union through an empty UnionType.j2)
+        dict(base, lang='c', mode='never', ns_types=True, tpl='copy+empty', sup=None, types=union_types(), tag='empty-templates', probes=[]),
+        # Python imports its (de)serialization templates unconditionally: they influence the output also with -pod
+        dict(base, lang='py', mode='never', omit=True, tpl=None, sup=None, types=plain_types(), tag='py-omit', probes=[]),
     ]
 
 
@@ -374,7 +392,7 @@ def category(path: str, work: str, root_dir: str) -> str:
 # ---------------------------------------------------------------------------------------------
 def main(chk: core.Check, replay: typing.Optional[str] = None) -> int:
     known_entries(chk)
-    n_random = 41 if chk.tier == 'quick' else 300
+    n_random = 39 if chk.tier == 'quick' else 300
     rng = chk.rng
     cases = [make_case(rng, i, forced=w) for i, w in enumerate(witness_cases())]
     if replay:
@@ -600,6 +618,8 @@ def main(chk: core.Check, replay: typing.Optional[str] = None) -> int:
                 'with the model',
         'samples': samples, 'traces_validated_against_impl': stats['model_compared'], 'distribution': stats,
         'known_findings_live': live,
+        'list_inputs_repairs_recognised_in_tree': ({k: model[0][k] for k in ('fix_lookup', 'fix_nonj2', 'fix_suptpl')}
+                                                   if model and model[0] else None),
     })
 
     if bad:
